@@ -62,7 +62,7 @@ def run_ep(ep: str, script: str, args: list[str], cwd: str, ioenc: str = "utf-8"
 
 KINDS = ["root-ok", "deleg-ok", "root-skip", "root-replay", "root-unsigned", "root-foreign", "root-raw-sigs", "deleg-unsigned",
          "deleg-foreign", "unknown-role", "type-mismatch", "malformed-untrusted", "malformed-trusted", "not-json", "missing-untrusted", "missing-trusted",
-         "no-type", "payload-not-md", "root-junk-sig", "deleg-gpg-sigs", "deleg-ok-unicode-role", "nonroot-trusted-vs-root-offer"]
+         "no-type", "payload-not-md", "root-junk-sig", "deleg-gpg-sigs", "deleg-ok-unicode-role", "nonroot-trusted-vs-root-offer", "root-ok-bom", "root-ok-dup-members"]
 
 
 def verify_pairs(rng, n):
@@ -80,7 +80,7 @@ def verify_pairs(rng, n):
         if kind.startswith("root"):
             nv = {"root-skip": v + 2, "root-replay": v}.get(kind, v + 1)
             u = gen.envelope(gen.root_md(ks, thr, km, 1, version=nv))
-            if kind in ("root-ok", "root-skip", "root-replay", "root-junk-sig"):
+            if kind in ("root-ok", "root-skip", "root-replay", "root-junk-sig", "root-ok-bom", "root-ok-dup-members"):
                 gen.sign_env(u, ks[:thr], True, rng)
             if kind == "root-junk-sig":
                 u["signatures"]["junk"] = "x"
@@ -128,6 +128,11 @@ def verify_pairs(rng, n):
             u = gen.sign_env(gen.envelope({"type": "key_mgr", "not": "delegating metadata"}), km, False)
         tb = None if kind == "missing-trusted" else gen.oracle_bytes(t)
         ub = None if kind == "missing-untrusted" else (b"{not json" if kind == "not-json" else gen.oracle_bytes(u))
+        if kind == "root-ok-bom":           # files saved by an editor that writes a UTF-8 signature: same JSON, same verdict
+            tb, ub = b"\xef\xbb\xbf" + tb, b"\xef\xbb\xbf" + ub
+        if kind == "root-ok-dup-members":   # a member name given twice: the last one counts (as json.load has it), for the tool as for the library
+            ub = ub.replace(b'{\n  "signatures"', b'{\n  "signatures": {"x": 1},\n  "signatures"', 1)
+            tb = tb.replace(b'"type": "root"', b'"type": "key_mgr",\n    "type": "root"', 1)
         if kind == "not-json" and rng.random() < 0.5:
             tb, ub = b"\xff\xfe", gen.oracle_bytes(root1)
         out.append((kind, tb, ub, t, u))
@@ -228,7 +233,9 @@ def run(ck: Check) -> None:
             if not ck.thorough and dname != "good-doc" and kname not in ("good", "bad-text"):
                 continue
             for ep in (ENTRY_POINTS if (kname in ("good", "bad-text", "bad-short") and dname == "good-doc") or ck.thorough else ["modulePkg"]):
-                rf, kf = os.path.join(d, f"r{n}.json"), os.path.join(d, f"k{n}.txt")
+                # file names as they occur in channels: plain, with brackets / spaces / wildcards / non-ASCII (taken literally, never as patterns)
+                shape = ["r{n}.json", "repodata[{n}].json", "repo data {n}.json", "r{n}[noarch].json", "r\u00e9po{n}.json", "r{n}?.json"][n % 6]
+                rf, kf = os.path.join(d, shape.format(n=n)), os.path.join(d, f"k{n}.txt")
                 n += 1
                 if dbytes is not None:
                     open(rf, "wb").write(dbytes)
